@@ -86,7 +86,7 @@ fn multi_file_states() -> Vec<State> {
             }
             files.push(XsdFile { name: format!("m{i}.xsd"), tns: ns, prefixes, default_ns: None, imports, comps: vec![complex(&format!("Type{i}"), items), simple(&format!("Code{i}"), "string", vec![("maxLength", "3")])] });
         }
-        State { label: format!("files {label}"), depth: 1, set: SchemaSet { files, wsdl: None, start: "m0.xsd".into() } }
+        State { label: format!("files {label}"), depth: 1, set: SchemaSet { files, wsdl: None, start: "m0.xsd".into(), xs_is_default_namespace: false } }
     };
     out.push(mk(3, &[(0, 1), (1, 2)], "chain-3"));
     out.push(mk(4, &[(0, 1), (1, 2), (2, 3)], "chain-4"));
@@ -109,11 +109,11 @@ fn multi_file_states() -> Vec<State> {
             imports: vec![Import { ns: two.into(), loc: Some("m2.xsd".into()) }, Import { ns: one.into(), loc: Some("m1.xsd".into()) }],
             comps: vec![complex("UsesBoth", vec![el("P", TypeRef::n(one, "Person")), el("Q", TypeRef::n(two, "Product"))])],
         };
-        out.push(State { label: "files same-abbreviation-prefix-order-differs-from-import-order".into(), depth: 1, set: SchemaSet { files: vec![root, leaf("m1.xsd", one, "Person"), leaf("m2.xsd", two, "Product")], wsdl: None, start: "m0.xsd".into() } });
+        out.push(State { label: "files same-abbreviation-prefix-order-differs-from-import-order".into(), depth: 1, set: SchemaSet { files: vec![root, leaf("m1.xsd", one, "Person"), leaf("m2.xsd", two, "Product")], wsdl: None, start: "m0.xsd".into(), xs_is_default_namespace: false } });
         let mid_ns = "http://zv.example/mid/other";
         let root = XsdFile { name: "m0.xsd".into(), tns: one.into(), prefixes: vec![("r".into(), one.into()), ("m".into(), mid_ns.into())], default_ns: None, imports: vec![Import { ns: mid_ns.into(), loc: Some("m1.xsd".into()) }], comps: vec![complex("Top", vec![el("M", TypeRef::n(mid_ns, "Mid"))])] };
         let mid = XsdFile { name: "m1.xsd".into(), tns: mid_ns.into(), prefixes: vec![("m".into(), mid_ns.into()), ("l".into(), two.into())], default_ns: None, imports: vec![Import { ns: two.into(), loc: Some("m2.xsd".into()) }], comps: vec![complex("Mid", vec![el("L", TypeRef::n(two, "Product"))])] };
-        out.push(State { label: "files chain-whose-leaf-shares-the-roots-abbreviation".into(), depth: 1, set: SchemaSet { files: vec![root, mid, leaf("m2.xsd", two, "Product")], wsdl: None, start: "m0.xsd".into() } });
+        out.push(State { label: "files chain-whose-leaf-shares-the-roots-abbreviation".into(), depth: 1, set: SchemaSet { files: vec![root, mid, leaf("m2.xsd", two, "Product")], wsdl: None, start: "m0.xsd".into(), xs_is_default_namespace: false } });
     }
     // two imported namespaces with ONE abbreviation whose prefixes are declared on the referring
     // components only (never on the root element)
@@ -127,7 +127,7 @@ fn multi_file_states() -> Vec<State> {
             files.push(XsdFile { name: format!("m{i}.xsd"), tns: ns[i].into(), prefixes: vec![("own".into(), ns[i].into())], default_ns: None, imports: vec![], comps: vec![complex(&format!("Type{i}"), vec![el("V", TypeRef::b("string"))])] });
         }
         files.insert(0, start);
-        out.push(State { label: "files colliding-abbreviations-declared-on-components".into(), depth: 1, set: SchemaSet { files, wsdl: None, start: "m0.xsd".into() } });
+        out.push(State { label: "files colliding-abbreviations-declared-on-components".into(), depth: 1, set: SchemaSet { files, wsdl: None, start: "m0.xsd".into(), xs_is_default_namespace: false } });
     }
     out
 }
@@ -150,7 +150,13 @@ pub fn states(tier: &str) -> Vec<State> {
         }
     }
     out.extend(c02::component_states());
+    {
+        let mut k = crate::seeds::kitchen_xsd();
+        k.xs_is_default_namespace = true;
+        out.push(State { label: "kitchen_xsd spelled with the XML Schema namespace as default namespace".into(), depth: 1, set: k });
+    }
     out.extend(c02::name_collision_states());
+    out.extend(c02::spelling_collision_states());
     out.extend(rename_states());
     out.extend(multi_file_states());
     out.extend(wsdlgen::wsdl_states(tier == "thorough"));
@@ -211,7 +217,7 @@ pub fn check(tier: &str) -> i32 {
                             .ctx("where", &owner)
                             .ctx("message", &generic_msg)
                             .ctx("production", production_kind(&st.label))
-                            .ctx("name.collision", if st.label.contains("name-collision") { "element-and-type-share-a-name" } else { "none" })
+                            .ctx("name.collision", if st.label.contains("name-collision") { "element-and-type-share-a-name" } else if st.label.contains("[yaserde-visitor-names]") { "sibling-elements-differ-in-case-only" } else if st.label.contains("[type-names]") { "type-names-with-one-rust-spelling" } else if st.label.contains("spelling-collision") { "distinct-xml-names-with-one-rust-spelling" } else { "none" })
                             .exp("rustc accepts the emitted file")
                             .act(format!("{} | line {}: {}", d.message, d.line, d.snippet))
                             .depth(st.depth)
